@@ -1,5 +1,6 @@
 import PkLA.Rff
 import PkLA.RffGaussian
+import PkLA.RffLaplace
 import Pk.Streams
 import Pk.KindLaws
 import Mathlib.Algebra.BigOperators.Group.Finset.Basic
@@ -86,5 +87,13 @@ theorem C17_gaussian_kernel_mean {ι : Type} [Fintype ι] (shape : ℝ) (hs : 0 
         ∂(MeasureTheory.Measure.pi fun _ : ι => ProbabilityTheory.gaussianReal 0 1)
       = Real.exp (-(shape * ∑ i, (x i - y i) ^ 2)) :=
   rff_gaussian_mean_iid shape hs (fun i => x i - y i)
+
+/-- **the `'cauchy'` features, one coordinate**: for a weight with the Laplace density `½e^{−|w|}`
+(`scipy.stats.laplace`, scale 1) the mean of `cos(√(2·shape)·w·(x − y))` is the Cauchy kernel
+`1 / (1 + 2·shape·(x − y)²)`.  (Several coordinates: the product of these factors - Fubini, not proved here.) -/
+theorem C17_cauchy_kernel_mean_1d (shape : ℝ) (hs : 0 ≤ shape) (x y : ℝ) :
+    ∫ w : ℝ, Real.cos (Real.sqrt (2 * shape) * (x - y) * w) * (1 / 2 * Real.exp (-|w|))
+      = 1 / (1 + 2 * shape * (x - y) ^ 2) := by
+  rw [rff_laplace_mean, mul_pow, Real.sq_sqrt (by positivity)]
 
 end Pk.C17
